@@ -186,9 +186,9 @@ def run(ctx, R):
             fold = A.Struct(IR + "IRFold", {"post_filters": A.VecV([mk_filter(op, "v%d" % i) for i, (op, _) in enumerate(fs)])})
             carrier = A.Struct(EXE + "QueryCarrier", {"query": S.some(A.Struct("trustfall_core::interpreter::InterpretedQuery", {"arguments": args}))})
             ip = A.Interp(C, intrinsics=intr)
-            mx = A.deref(ip.call_fn(fmax, [carrier, fold]))
+            mx = A.deref(ip.call_by_type(fmax, [("QueryCarrier", carrier), ("IRFold", fold)]))
             ip = A.Interp(C, intrinsics=intr)
-            mn = A.deref(ip.call_fn(fmin, [carrier, fold]))
+            mn = A.deref(ip.call_by_type(fmin, [("QueryCarrier", carrier), ("IRFold", fold)]))
             mxv = None if mx.variant == "None" else A.deref(mx.fields[0])
             mnv = None if mn.variant == "None" else A.deref(mn.fields[0])
             passes = lambda c: all(OPS[op](c, v) for op, v in fs)
@@ -199,7 +199,7 @@ def run(ctx, R):
                         pulled[0] += 1
                         yield A.Sym("elem%d" % i)
                 ip = A.Interp(C, intrinsics=intr)
-                res = A.deref(ip.call_fn(fcol, [S.IterV(gen()), mx, mn]))
+                res = A.deref(ip.call_by_type(fcol, [("Iterator", S.IterV(gen())), ("name:max", mx), ("name:min", mn)]))
                 n += 1
                 full = passes(k)
                 if res.variant == "None":
